@@ -5,11 +5,22 @@
 
 
 class Budget:
-    def __init__(self, n):
+    """A number of tests and, optionally, a wall-clock allowance.  The wall allowance only bounds how far a
+    witness is shrunk (a report nicety): the verdict and the witness's validity never depend on it."""
+
+    def __init__(self, n, wall_s=None):
+        import time
+
         self.left = n
         self.tests = 0
+        self.clock = time.time
+        self.deadline = (time.time() + wall_s) if wall_s else None
+        self.out_of_time = False
 
     def take(self):
+        if self.deadline is not None and self.clock() > self.deadline:
+            self.out_of_time = True
+            return False
         if self.left <= 0:
             return False
         self.left -= 1
@@ -46,9 +57,9 @@ def ddmin_list(items, pred, budget):
     return cur
 
 
-def minimise_image(base, image, pred, max_tests=220):
+def minimise_image(base, image, pred, max_tests=220, wall_s=None):
     """pred(bytes) -> True when the same violation class persists.  Returns (bytes, info)."""
-    budget = Budget(max_tests)
+    budget = Budget(max_tests, wall_s)
     info = {"strategy": [], "tests": 0}
     img = image
     if base is not None and len(base) == len(image) and base != image:
@@ -101,4 +112,6 @@ def minimise_image(base, image, pred, max_tests=220):
             break
     info["strategy"].append("chunk removal -> %d bytes" % len(img))
     info["tests"] = budget.tests
+    if budget.out_of_time:
+        info["strategy"].append("stopped by its wall-clock allowance")
     return img, info
